@@ -673,7 +673,25 @@ class Controller:
             )
 
         if not advertiser:
-            # This is not send to us.
+            if packet.advertiser_address not in (
+                self.public_address,
+                self.random_address,
+                *(s.random_address for s in self.advertising_sets.values()),
+            ):
+                # This is not send to us.
+                return
+
+            # We no longer advertise with this address (another initiator was faster,
+            # or advertising was stopped): the connection that the initiator has
+            # created is not established.
+            if self.link:
+                self.link.send_ll_control_pdu(
+                    sender_address=packet.advertiser_address,
+                    receiver_address=packet.initiator_address,
+                    packet=ll.TerminateInd(
+                        hci.HCI_ErrorCode.CONNECTION_FAILED_TO_BE_ESTABLISHED_ERROR
+                    ),
+                )
             return
 
         # Allocate (or reuse) a connection handle
